@@ -1932,8 +1932,9 @@ where
             // The rewritten packet must still fit the peer's maximum packet size; otherwise
             // the packet is sent as given (it passed the size check above).
             let size_limit = self.maximum_packet_size_send as usize;
-            // (a packet at the largest Remaining Length has no room for the 3-byte alias property)
-            let room_for_alias = packet.size() + 3 <= 1 + 4 + 268_435_455;
+            // (a packet at the largest Remaining Length has no room for the 3-byte alias property,
+            // which can also make the Property Length field one byte longer)
+            let room_for_alias = packet.size() + 4 <= 1 + 4 + 268_435_455;
             if !room_for_alias {
                 // sent as given
             } else if self.auto_map_topic_alias_send {
